@@ -8,6 +8,7 @@ from harness.appkit import Session, new_app, deliver, enc, ndn_types, nm
 from harness import strict_tlv as st
 
 TICK_MS = 10
+DEFAULT_LIFE = 400       # ticks: template lifetime that stands for "no lifetime given"
 REASONS = [None, 0, 150, 50, (1 << 32) + 5, (1 << 64) - 1]      # index -> real reason code (index 0 unused)
 
 
@@ -166,6 +167,12 @@ class PitRun:
             e = len(self.tasks) + 1
             name = self.int_name(t)
             kw = dict(can_be_prefix=bool(t['cbp']), lifetime=t['life'] * TICK_MS, nonce=0x01020304)
+            if t['life'] == DEFAULT_LIFE:
+                # the lifetime is not given: the default of 4000 ms applies (appv2 also without an InterestLifetime element)
+                if self.front == 'v2' and e % 3 == 0:
+                    kw['lifetime'] = None
+                else:
+                    del kw['lifetime']
             if e % 2 == 0:
                 # every second Interest is expressed through ONE InterestParam object that the caller keeps and
                 # overwrites for the next Interest (the parameters of a pending Interest must not follow it)
@@ -207,7 +214,7 @@ class PitRun:
                 try:
                     n2, p2, _, _ = enc.parse_interest(sent[0])
                     if enc.Name.to_str(n2) != enc.Name.to_str(name) or bool(p2.can_be_prefix) != bool(t['cbp']) \
-                            or p2.lifetime != t['life'] * TICK_MS:
+                            or p2.lifetime != (None if 'lifetime' in kw and kw['lifetime'] is None else t['life'] * TICK_MS):
                         self.bg.append('express-wrong-interest')
                 except Exception as ex:  # noqa
                     self.bg.append('express-unparsable-interest')
@@ -254,6 +261,13 @@ class PitRun:
             # anything still due now that the schedule did not expect fires first (shows up in post)
             loop.settle(timers_now=True)
             loop.set_time(self.t0 + (self.tick() + 1) * TICK_MS / 1000.0)
+            loop.settle(timers_now=False)
+        elif a == 'Jump':
+            # time really passes: whatever the library scheduled before the target instant fires at its own time
+            # (the specification says nothing is due in between); timers due AT the target wait for Fire
+            target = self.t0 + ev['to'] * TICK_MS / 1000.0
+            loop.advance_to(target - 0.0005)
+            loop.set_time(target)
             loop.settle(timers_now=False)
         elif a == 'Await':
             idx = ev['e'] - 1
